@@ -276,6 +276,13 @@ pub fn cmd_codec(args: &[String]) {
         let b: dryoc::dryocsecretbox::VecBox = dryoc::dryocsecretbox::DryocSecretBox::with_data_and_mac(dryoc::types::StackByteArray::from(&mac), &body);
         let wire = b.to_vec();
         if wire != [&mac[..], &body[..]].concat() { rep.fail("DryocSecretBox::with_data_and_mac: to_vec is not tag || data", json!({"len": len})); }
+        // into_vec is the same wire form whatever allocation the data Vec happens to have (exact, a little or a lot of spare room)
+        for spare in [0usize, 1, 15, 16, 17, 64, 5000] {
+            rep.evaluations += 1;
+            let mut data = Vec::with_capacity(len + spare); data.extend_from_slice(&body);
+            let b: dryoc::dryocsecretbox::VecBox = dryoc::dryocsecretbox::DryocSecretBox::from_parts(dryoc::types::StackByteArray::from(&mac), data);
+            if b.into_vec() != wire { rep.fail("DryocSecretBox::into_vec differs from to_vec (tag || data) when the data Vec has spare capacity", json!({"len": len, "spare": spare})); }
+        }
     }
     rep.write(&args[1]);
 }
